@@ -28,23 +28,44 @@ Qed.
 (** TEMPLATES *)
 Definition tpl_ok (t : tpl) : bool := negb (tp_complete t) || valid_node schema0 exempt (tp_ty t) (tp_node t).
 
-Lemma all_tpl_ok : forallb tpl_ok templates = true.
-Proof. vm_compute. reflexivity. Qed.
+(** the templates the validator rejects, COMPUTED from the data (the closed obligation
+    [tpl_failing = []] is stated in props/C03.v, last, so that a deviation in the library
+    does not hide the obligations that still hold) *)
+Definition tpl_failing : list N := map tp_id (filter (fun t => negb (tpl_ok t)) templates).
+
+Lemma memN_In c l : memN c l = true <-> In c l.
+Proof.
+  unfold memN. rewrite existsb_exists. split.
+  - intros [x [Hx He]]. apply N.eqb_eq in He. subst; auto.
+  - intros H. exists c. split; auto. apply N.eqb_refl.
+Qed.
+
+(* generic: a row whose id is not among the computed failing ids passes *)
+Lemma not_failing_ok {A} (id : A -> N) (ok : A -> bool) (l : list A) (x : A) :
+  In x l -> memN (id x) (map id (filter (fun t => negb (ok t)) l)) = false -> ok x = true.
+Proof.
+  intros Hin Hnf. destruct (ok x) eqn:E; auto.
+  assert (H : In (id x) (map id (filter (fun t => negb (ok t)) l))).
+  { apply in_map. apply filter_In. split; auto. rewrite E. reflexivity. }
+  apply memN_In in H. rewrite H in Hnf. discriminate.
+Qed.
 
 Lemma templates_valid : forall t, In t templates -> tp_complete t = true ->
+  memN (tp_id t) tpl_failing = false ->
   valid_node schema0 exempt (tp_ty t) (tp_node t) = true.
 Proof.
-  intros t Hin Hc. pose proof (proj1 (forallb_forall _ _) all_tpl_ok t Hin) as H.
-  unfold tpl_ok in H. rewrite Hc in H. exact H.
+  intros t Hin Hc Hnf. pose proof (not_failing_ok tp_id tpl_ok templates t Hin Hnf) as E.
+  unfold tpl_ok in E. rewrite Hc in E. exact E.
 Qed.
 
 (** the top level of every accepted template, spelled out *)
 Lemma templates_top_level : forall t tg a ks T, In t templates -> tp_complete t = true ->
+  memN (tp_id t) tpl_failing = false ->
   tp_node t = Elem tg a ks -> lookup_type schema0 (tp_ty t) = Some T ->
   lang (ct_cm T) (map (norm_tag (ct_cm T)) (kept exempt tg (ktags ks)))
   /\ (forall d, In d (ct_attrs T) -> ad_req d = true -> has_attr (ad_name d) a = true).
 Proof.
-  intros t tg a ks T Hin Hc Hn HT. pose proof (templates_valid t Hin Hc) as H. rewrite Hn in H.
+  intros t tg a ks T Hin Hc Hnf Hn HT. pose proof (templates_valid t Hin Hc Hnf) as H. rewrite Hn in H.
   destruct (valid_node_children_in_language _ _ _ _ _ _ _ HT (schema_wf _ _ HT) H) as (H1 & _ & H3 & _). auto.
 Qed.
 
@@ -53,8 +74,6 @@ Definition without (e : tag * aname) : list (tag * aname) :=
   filter (fun q => negb (N.eqb (fst e) (fst q) && N.eqb (snd e) (snd q))) exempt.
 Definition exempt_real (e : tag * aname) : bool :=
   existsb (fun t => tp_complete t && negb (valid_node schema0 (without e) (tp_ty t) (tp_node t))) templates.
-Lemma all_exempt_real : forallb exempt_real exempt = true.
-Proof. vm_compute. reflexivity. Qed.
 
 (** the templates are in order as well (base case of the operation theorem) *)
 Definition tpl_ord (t : tpl) : bool := order_valid schema0 (tp_ty t) (tp_node t).
@@ -63,14 +82,15 @@ Definition tpl_ord_ok (t : tpl) : bool := negb (tp_complete t) || tpl_ord t.
 (** DECLARATIONS: every declared child of every registered class against every XSD type
     of its tags passes decl_ok on THIS schema table *)
 Definition decl_ok_row (r : decl) : bool := memN (dc_id r) known_decl || decl_row_ok schema0 r.
-Lemma all_decl_rows : forallb decl_ok_row decls = true.
-Proof. vm_compute. reflexivity. Qed.
+Definition decl_failing : list N := map dc_id (filter (fun r => negb (decl_ok_row r)) decls).
 
 Lemma decls_admissible : forall r, In r decls -> memN (dc_id r) known_decl = false ->
+  memN (dc_id r) decl_failing = false ->
   exists T, lookup_type schema0 (dc_ty r) = Some T /\
   (order_checked T = true -> decl_ok (flatten (ct_cm T)) (dc_child r) (dc_succ r) = true).
 Proof.
-  intros r Hin Hk. pose proof (proj1 (forallb_forall _ _) all_decl_rows r Hin) as H.
+  intros r Hin Hk Hnf.
+  pose proof (not_failing_ok dc_id decl_ok_row decls r Hin Hnf) as H.
   unfold decl_ok_row in H. rewrite Hk in H. cbn [orb] in H. unfold decl_row_ok in H.
   destruct (lookup_type schema0 (dc_ty r)) as [T|]; [|discriminate]. exists T. split; auto.
   intros Hoc. rewrite Hoc in H. exact H.
@@ -79,6 +99,7 @@ Qed.
 (** hence: inserting a declared child (subtree in order, no exclusive sibling in the way)
     at ANY element of that type, anywhere in ANY tree in order, keeps the tree in order *)
 Lemma declared_insert_preserves : forall r, In r decls -> memN (dc_id r) known_decl = false ->
+  memN (dc_id r) decl_failing = false ->
   forall T, lookup_type schema0 (dc_ty r) = Some T -> order_checked T = true ->
   forall x n, tag_of x = dc_child r -> child_ok schema0 T x = true ->
   addable (flatten (ct_cm T)) (dc_child r) (ktags (kids_of n)) = true ->
@@ -86,8 +107,8 @@ Lemma declared_insert_preserves : forall r, In r decls -> memN (dc_id r) known_d
   order_valid schema0 (dc_ty r) (apply_lop (InsertChild x (dc_succ r)) n) = true
   /\ order_valid schema0 (dc_ty r) (apply_lop (GetOrAdd x (dc_succ r)) n) = true.
 Proof.
-  intros r Hin Hk T HT Hoc x n Hx Hc Ha Hov.
-  destruct (decls_admissible r Hin Hk) as (T' & HT' & Hd). rewrite HT in HT'. injection HT' as <-.
+  intros r Hin Hk Hnf T HT Hoc x n Hx Hc Ha Hov.
+  destruct (decls_admissible r Hin Hk Hnf) as (T' & HT' & Hd). rewrite HT in HT'. injection HT' as <-.
   specialize (Hd Hoc).
   split; eapply apply_lop_preserves; eauto; cbn [adm_lop]; rewrite Hx, Hoc, Hd, Ha, Hc; reflexivity.
 Qed.
@@ -100,8 +121,7 @@ Qed.
 Definition attr_ok_row (r : attrdecl) : bool :=
   memN (at_id r) known_attr || negb (N.eqb (attr_row_verdict schema0 r) 1)
   || existsb (fun r' => N.eqb (at_grp r') (at_grp r) && N.eqb (attr_row_verdict schema0 r') 0) adecls.
-Lemma all_attr_rows : forallb attr_ok_row adecls = true.
-Proof. vm_compute. reflexivity. Qed.
+Definition attr_failing : list N := map at_id (filter (fun r => negb (attr_ok_row r)) adecls).
 
 Lemma attrs_admissible : forall r, In r adecls -> memN (at_id r) known_attr = false ->
   attr_row_verdict schema0 r = 0%N ->
@@ -121,12 +141,11 @@ Proof. vm_compute. lia. Qed.
 (** every complete template that needs no exemption is in order (base of the invariant) *)
 Definition tpl_in_order (t : tpl) : bool :=
   negb (tp_complete t) || negb (valid_node schema0 [] (tp_ty t) (tp_node t)) || order_valid schema0 (tp_ty t) (tp_node t).
-Lemma all_tpl_in_order : forallb tpl_in_order templates = true.
-Proof. vm_compute. reflexivity. Qed.
-Lemma templates_in_order : forall t, In t templates -> tp_complete t = true ->
+Lemma templates_in_order : forallb tpl_in_order templates = true ->
+  forall t, In t templates -> tp_complete t = true ->
   valid_node schema0 [] (tp_ty t) (tp_node t) = true -> order_valid schema0 (tp_ty t) (tp_node t) = true.
 Proof.
-  intros t Hin Hc Hv. pose proof (proj1 (forallb_forall _ _) all_tpl_in_order t Hin) as H.
+  intros Hall t Hin Hc Hv. pose proof (proj1 (forallb_forall _ _) Hall t Hin) as H.
   unfold tpl_in_order in H. rewrite Hc, Hv in H. exact H.
 Qed.
 
